@@ -53,13 +53,23 @@ struct Charge {
     amount: OwnedAmount,
 }
 
+/// Payee, code and comments each take one line of a ledger file, and white space around
+/// them is not part of them: statement text is brought into that shape before it is used.
+fn single_line(text: &str) -> String {
+    text.split(['\n', '\r'])
+        .map(str::trim)
+        .filter(|line| !line.is_empty())
+        .collect::<Vec<_>>()
+        .join(" ")
+}
+
 impl Txn {
     pub fn new(date: NaiveDate, payee: &str, amount: OwnedAmount) -> Txn {
         Txn {
             date,
             effective_date: None,
             code: None,
-            payee: payee.to_string(),
+            payee: single_line(payee),
             comments: Vec::new(),
             dest_account: None,
             clear_state: None,
@@ -80,17 +90,17 @@ impl Txn {
     }
 
     pub fn code_option<'a>(&'a mut self, code: Option<&str>) -> &'a mut Txn {
-        self.code = code.map(str::to_string);
+        self.code = code.map(single_line);
         self
     }
 
     pub fn code<'a>(&'a mut self, code: &str) -> &'a mut Txn {
-        self.code = Some(code.to_string());
+        self.code = Some(single_line(code));
         self
     }
 
     pub fn add_comment(&mut self, comment: String) -> &mut Txn {
-        self.comments.push(comment);
+        self.comments.push(single_line(&comment));
         self
     }
 
@@ -164,7 +174,7 @@ impl Txn {
             commodity: amount.commodity.clone(),
         });
         self.charges.push(Charge {
-            payee: payee.to_string(),
+            payee: single_line(payee),
             amount,
         });
         Ok(self)
@@ -172,7 +182,7 @@ impl Txn {
 
     pub fn add_charge<'a>(&'a mut self, payee: &str, amount: OwnedAmount) -> &'a mut Txn {
         self.charges.push(Charge {
-            payee: payee.to_string(),
+            payee: single_line(payee),
             amount,
         });
         self
